@@ -20,11 +20,15 @@ CONSTANTS Slates,        \* slate names, e.g. {"s1","s2"}
           UseMineTo,     \* blocks mined to the wallets themselves
           UseCancelBySlate,
           UseAdv,        \* adversarial foreign calls on w1
-          MaxAdv         \* at most this many adversarial calls per behaviour
+          MaxAdv,        \* at most this many adversarial calls per behaviour
+          MaxFork,       \* reorganisations of depth 1..MaxFork (0 = none)
+          UseScan,       \* owner::scan (with and without delete_unconfirmed), restore from seed
+          UseDiverge     \* inject divergences into w1's records
 
 VARIABLES st, hv, net, hist, mids   \* mids: the intermediate persistent states of the last step
 vars == <<st, hv, net, hist, mids>>
-WS == {"w1", "w2"}
+WS0 == {"w1", "w2"}
+WS == WS0
 
 \* ---------------------------------------------------------------- init
 Empty == [w |-> [w \in WS |-> [EmptyWallet({"a0"}) EXCEPT !.seed = w]], chain |-> <<>>, pool |-> {}, body |-> <<>>, reg |-> <<>>, nrep |-> <<>>]
@@ -225,6 +229,34 @@ SetActiveAct(a) ==
   /\ Upd(LastOf(SetActive(st, "w1", [label |-> IF a = "a0" THEN "default" ELSE "acct1"]).steps), hv, net,
          [ev |-> "set_active", w |-> "w1", label |-> IF a = "a0" THEN "default" ELSE "acct1"])
 
+\* -- reorganisations, restore from seed, scan, injected divergences (C16, C18)
+NFork == Cardinality({m \in net : m.stage = "FORK"})
+ForkAct(d, keep) ==
+  /\ Height(st) - d >= NFund + Maturity /\ Height(st) + 1 <= MaxH
+  /\ NFork < 2
+  /\ LET base == [st EXCEPT !.chain = SubSeq(st.chain, 1, Height(st) - d)]
+         removed == UNION {st.chain[i].txs : i \in (Height(st) - d + 1)..Height(st)} IN
+     /\ keep \subseteq removed
+     /\ \A sl \in keep : st.body[sl].ins \subseteq Utxo(base)
+     /\ \A a, b \in keep : a # b => st.body[a].ins \cap st.body[b].ins = {}
+     /\ Upd(Fork(st, d, keep), hv, net \cup {Msg("", "FORK", NFork + 1, 0, "", 0)},
+            [ev |-> "fork", depth |-> d, keep |-> keep])
+RestoreAct ==
+  /\ "w3" \notin DOMAIN st.w
+  /\ Upd(Restore(st, "w3", "w1"),
+         [hv EXCEPT !.lockedBy = Put(@, "w3", <<>>), !.done = Put(@, "w3", {}), !.issued = Put(@, "w3", {})], net,
+         [ev |-> "restore", w |-> "w3", from |-> "w1"])
+ScanAct(w, del) ==
+  /\ LET r == Scan(st, w, 1, del) IN
+     UpdS(r.steps, hv, net, [ev |-> "scan", w |-> w, start |-> 1, del |-> del])
+NDiv == Cardinality({m \in net : m.stage = "DIV"})
+DivergeAct(kind, k) ==
+  /\ NDiv < 1
+  /\ k \in DOMAIN st.w["w1"].outs
+  /\ Diverge(st, "w1", kind, k) # st
+  /\ Upd(Diverge(st, "w1", kind, k), hv, net \cup {Msg("", "DIV", 1, 0, "", 0)},
+         [ev |-> "diverge", w |-> "w1", kind |-> kind, key |-> k])
+
 \* -- adversarial use of the foreign API of w1 (C07); the number of adversarial
 \* calls so far is kept as marker messages in `net`
 AdvCount == Cardinality({m \in net : m.stage = "ADV"})
@@ -264,7 +296,10 @@ Next ==
                                         \/ \E m \in net : FinalizeInvoiceAct(sl, m)
   \/ MineAct("") \/ TickAct
   \/ UseMineTo /\ MineAct("w1")
-  \/ \E w \in WS : RefreshAct(w)
+  \/ \E w \in DOMAIN st.w : RefreshAct(w)
+  \/ MaxFork > 0 /\ \E d \in 1..MaxFork : \E keep \in SUBSET Mined(st) : ForkAct(d, keep)
+  \/ UseScan /\ (RestoreAct \/ \E w \in DOMAIN st.w : \E del \in BOOLEAN : ScanAct(w, del))
+  \/ UseDiverge /\ \E kind \in {"delete", "spent", "unspent", "lock"} : \E k \in DOMAIN st.w["w1"].outs : DivergeAct(kind, k)
   \/ \E w \in WS : \E t \in DOMAIN st.w[w].txs :
         st.w[w].txs[t].acct = st.w[w].active /\ CancelAct(w, st.w[w].txs[t].id, "")
   \/ UseCancelBySlate /\ \E w \in WS, sl \in Slates : CancelAct(w, -1, sl)
@@ -274,7 +309,7 @@ Next ==
 Spec == Init /\ [][Next]_vars
 
 \* ------------------------------------------------------------ constraints
-Bound == \A w \in WS : /\ Cardinality(DOMAIN st.w[w].txs) <= MaxLog + (IF w = "w1" THEN NFund ELSE 0)
+Bound == \A w \in WS0 : /\ Cardinality(DOMAIN st.w[w].txs) <= MaxLog + (IF w = "w1" THEN NFund ELSE 0)
                         /\ Cardinality(DOMAIN st.w[w].outs) <= MaxLog + 1 + (IF w = "w1" THEN NFund ELSE 0)
 View == <<st, hv, net>>
 
@@ -287,8 +322,8 @@ Cex(name) == PrintT(<<"CEX", ToJson([inv |-> name, hist |-> hist])>>)
 Inv_Exclusive == IF ExclusiveReservation(st, hv) THEN TRUE ELSE Cex("ExclusiveReservation")
 \* C06: every state a crash can leave behind (after each persistent effect of the last
 \* operation) is consistent
-Inv_Crash == IF \A i \in DOMAIN mids : \A w \in WS : CrashConsistent(mids[i], w) THEN TRUE ELSE Cex("CrashConsistent")
-TypeOK == \A w \in WS : \A k \in DOMAIN st.w[w].outs : st.w[w].outs[k].st \in Statuses
+Inv_Crash == IF \A i \in DOMAIN mids : \A w \in DOMAIN mids[i].w : CrashConsistent(mids[i], w) THEN TRUE ELSE Cex("CrashConsistent")
+TypeOK == \A w \in DOMAIN st.w : \A k \in DOMAIN st.w[w].outs : st.w[w].outs[k].st \in Statuses
 
 \* action properties: evaluated on every transition; the event is the last
 \* record of hist'.  A failure prints the history as a counter-example.
@@ -345,7 +380,7 @@ BooksOK(s, w) ==
   /\ \A k \in OutsOfAcct(s, w, a) : (OID(s, w, k) \in u /\ s.w[w].outs[k].st # "Unconfirmed") => k \in mine
   /\ SumF([t \in T |-> s.w[w].txs[t].cr], T) - SumF([t \in T |-> s.w[w].txs[t].db], T) = bal
 Prop_Books ==
-  [][Stepped /\ Ev.ev = "refresh" /\ ~(\E i \in 1..Len(hist') : hist'[i].ev = "cancel") =>
+  [][Stepped /\ Ev.ev = "refresh" /\ ~(\E i \in 1..Len(hist') : hist'[i].ev \in {"cancel", "fork", "diverge", "restore", "scan"}) =>
        ChkA(BooksOK(st', Ev.w), "BooksEqualChain")]_vars
 \* account isolation: a step with source account a changes no output of another account
 Prop_Isolation ==
@@ -357,6 +392,19 @@ Prop_Isolation ==
               (st.w["w1"].outs[k].acct # a /\ st.w["w1"].outs[k].acct # st.w["w1"].active)
                  => (k \in DOMAIN st'.w["w1"].outs /\ st'.w["w1"].outs[k].st = st.w["w1"].outs[k].st),
             "AccountIsolation")]_vars
+
+\* C16 / C18: what a scan must achieve, on the model
+Prop_Scan ==
+  [][Stepped /\ Ev.ev = "scan" =>
+       LET w == Ev.w  u == Utxo(st')
+           prevScan == Len(hist) >= 1 /\ LastOf(hist).ev = "scan" /\ LastOf(hist).w = w /\ LastOf(hist).del = Ev.del IN
+       /\ ChkA(ScanEqualsTruth(st', w, u, Ev.del, Height(st')), "ScanEqualsTruth")
+       /\ ChkA(RevertedReported(st, st', w, u), "RevertedReported")
+       /\ prevScan => ChkA([st'.w[w] EXCEPT !.scanned = 0] = [st.w[w] EXCEPT !.scanned = 0], "ScanIdempotent")
+       /\ (w = "w3" /\ ~\E i \in 1..Len(hist) : hist[i].ev \in {"scan", "refresh"} /\ hist[i].w = "w3")
+             => ChkA(RestoredExact(st', w, u, LAMBDA o : HeightOfOut(st', o)), "RestoredExact")]_vars
+Prop_RevertedRestored ==
+  [][Stepped /\ Ev.ev = "refresh" => ChkA(RevertedRestored(st, st', Ev.w, Utxo(st')), "RevertedRestored")]_vars
 
 \* C17
 Prop_Ttl ==
